@@ -391,6 +391,13 @@ pub struct Mdl {
     pub persistent: bool,
     /// the CONNECT of this connection asked for a clean start
     pub clean_start: bool,
+    /// persistence of the session before the CONNECT of the current attempt, and whether the attempt got as
+    /// far as a successful CONNACK: an attempt that is never established does not change the session
+    pub persistent_before: bool,
+    pub established: bool,
+    /// while disconnected: the object is marked as keeping packets for the next connection because offline
+    /// publishing was switched on (or was on when the last session ended); switching it off does not unmark
+    pub keep_mark: bool,
     pub link: LinkFacts,
     pub link_up: bool,
     pub close_pending: bool,
@@ -435,6 +442,9 @@ impl Mdl {
             ver,
             persistent: false,
             clean_start: true,
+            persistent_before: false,
+            established: false,
+            keep_mark: false,
             link: LinkFacts::default(),
             link_up: false,
             close_pending: false,
@@ -466,6 +476,10 @@ impl Mdl {
         self.ids.clear();
         self.store.clear();
         self.q2_notified.clear();
+    }
+    /// a CONNECT was sent or received since the last close
+    pub fn link_up_or_attempted(&self) -> bool {
+        self.link_up || self.st != St::Disc || self.close_pending
     }
     fn exchanges(&self) -> usize {
         self.ids.values().filter(|o| **o != Owner::App).count()
@@ -585,6 +599,7 @@ impl<P: Pid> Ep<P> {
         m.pingresp_to = cfg.pingresp_to;
         m.auto_pub = cfg.auto_pub;
         m.offline = cfg.offline;
+        m.keep_mark = cfg.offline;
         Ep { cfg, conn, m }
     }
 
